@@ -165,7 +165,7 @@ def resolve_port(circ, port: str):
 
 
 def run_history(rec: Rec, make, rnd: random.Random, cycles: int, case: dict, klass: str = "", drain: int = 0, prop_tag: str = "", san_rec: Rec | None = None,
-                rivals: bool = False):
+                rivals: bool = False, passive_rec: Rec | None = None):
     """Run one history. `make(rnd)` returns (dut, model). Returns number of monitored cycles.
 
     rivals=True: every provided exclusive method gets a second caller transaction; per cycle a port is requested by its main caller, its rival or both
@@ -193,6 +193,9 @@ def run_history(rec: Rec, make, rnd: random.Random, cycles: int, case: dict, kla
         if san_rec is not None:
             from ..txsan import attach
             attach(sim, san_rec, case)
+        if passive_rec is not None:
+            from .. import passive
+            passive.attach(sim, passive_rec, case)
 
         async def drv(ctx):
             ios = {p: resolve_port(circ, p) for p in model.ports}
